@@ -59,7 +59,7 @@ func (k Keeper) VerifySignature(goCtx context.Context, req *types.QueryVerifySig
 		return nil, validationError
 	}
 
-	return &types.QueryVerifySignatureResponse{Signature: signature.Signature, Algorithm: signature.Algorithm, Certificate: signature.Signature,
+	return &types.QueryVerifySignatureResponse{Signature: signature.Signature, Algorithm: signature.Algorithm, Certificate: signature.Certificate,
 		Timestamp: signature.Timestamp, Valid: "valid"}, nil
 }
 
